@@ -20,6 +20,8 @@ SIG = {
     # FIPS 180-4 SHA-512 and FIPS 202 SHAKE256 (first n octets of the output): values uninterpreted (C03)
     'sha512': {'sort': 'bytes', 'uf': True, 'facts': ['len(result) == 64']},
     'shake256': {'sort': 'bytes', 'uf': True, 'facts': ['len(result) == n']},
+    # the caller-supplied key-derivation function of DH.key_agreement: an arbitrary function of the shared secret Z
+    'kdf_out': {'sort': 'bytes', 'uf': True},
     # result sorts of functions that are opaque in the proofs that do not need their definition
     'scalar_of_seed': 'int[nat]', 'low_order_u': 'bool',
 }
@@ -53,6 +55,10 @@ def sha512(data):
 
 
 def shake256(data, n):
+    pass
+
+
+def kdf_out(z):
     pass
 
 
